@@ -56,23 +56,27 @@ func ParseConfig(s string) (Config, error) {
 
 // Program is the type-checked module under one configuration.
 type Program struct {
-	Cfg          Config
-	RepoDir      string
-	Fset         *token.FileSet
-	Pkgs         []*packages.Package          // module packages only
-	All          []*packages.Package          // roots as returned by Load (with deps reachable via Imports)
-	ByPath       map[string]*packages.Package // module packages by import path
-	Overlay      map[string][]byte
-	parents      map[*ast.File]map[ast.Node]ast.Node
-	declOf       map[*types.Func]*ast.FuncDecl
-	fileOf       map[*ast.FuncDecl]*ast.File
-	pkgOfObj     map[*types.Package]*packages.Package
-	normDecl     map[*ast.FuncDecl]*ast.FuncDecl // declaration → declaration with absorbed helpers (inline.go)
-	absorbedFn   map[*types.Func]bool
-	InlineStats  [2]int // absorbed calls (statement level, expression level)
-	InlineErrors []string
-	ssaOnce      bool
-	SSA          *SSAInfo
+	Cfg           Config
+	RepoDir       string
+	Fset          *token.FileSet
+	Pkgs          []*packages.Package          // module packages only
+	All           []*packages.Package          // roots as returned by Load (with deps reachable via Imports)
+	ByPath        map[string]*packages.Package // module packages by import path
+	Overlay       map[string][]byte
+	parents       map[*ast.File]map[ast.Node]ast.Node
+	declOf        map[*types.Func]*ast.FuncDecl
+	fileOf        map[*ast.FuncDecl]*ast.File
+	pkgOfObj      map[*types.Package]*packages.Package
+	normDecl      map[*ast.FuncDecl]*ast.FuncDecl // declaration → declaration with absorbed helpers (inline.go)
+	absorbedFn    map[*types.Func]bool
+	InlineStats   [2]int // absorbed calls (statement level, expression level)
+	InlineErrors  []string
+	fnByOldKey    map[string]*types.Func // baseline key → function that carries a new name now (rename.go)
+	fieldByOldKey map[string]*types.Var
+	renamedFn     map[*types.Func]bool
+	Renames       []string
+	ssaOnce       bool
+	SSA           *SSAInfo
 }
 
 // Load type-checks every non-test package of /repo for cfg.
@@ -141,6 +145,7 @@ func Load(repo string, cfg Config, overlay map[string][]byte) (*Program, error) 
 			}
 		}
 	}
+	p.resolveRenames()
 	p.normalise()
 	return p, nil
 }
@@ -186,9 +191,15 @@ func (p *Program) Func(rel, name string) *types.Func {
 		}
 		obj, _, _ := types.LookupFieldOrMethod(types.NewPointer(tn.Type()), true, pk.Types, name[i+1:])
 		fn, _ := obj.(*types.Func)
+		if fn == nil {
+			fn = p.fnByOldKey[pk.PkgPath+"."+name]
+		}
 		return fn
 	}
 	fn, _ := pk.Types.Scope().Lookup(name).(*types.Func)
+	if fn == nil {
+		fn = p.fnByOldKey[pk.PkgPath+".."+name]
+	}
 	return fn
 }
 
@@ -220,6 +231,9 @@ func (p *Program) Field(rel, typ, field string) *types.Var {
 		if st.Field(i).Name() == field {
 			return st.Field(i)
 		}
+	}
+	if pk := p.Pkg(rel); pk != nil {
+		return p.fieldByOldKey[FieldKey(pk.PkgPath, typ, field)] // the field may carry a new name (rename.go)
 	}
 	return nil
 }
@@ -318,9 +332,9 @@ func FuncName(fn *types.Func) string {
 			name = n.Obj().Name()
 		}
 		if ptr != "" {
-			return fmt.Sprintf("%s.(*%s).%s", pkg, name, fn.Name())
+			return fmt.Sprintf("%s.(*%s).%s", pkg, name, CanonName(fn))
 		}
-		return fmt.Sprintf("%s.%s.%s", pkg, name, fn.Name())
+		return fmt.Sprintf("%s.%s.%s", pkg, name, CanonName(fn))
 	}
-	return pkg + "." + fn.Name()
+	return pkg + "." + CanonName(fn)
 }
